@@ -343,7 +343,12 @@ func runC14(c *rt.Ctx) {
 			}
 		}
 		pool = append(pool, "", "v", "1.0", "v1.0", "1.0.0", "v1.0.0", "1.0.0-rc10", "1.0.0-rc9", "v1.0.0-a01", "v1.0.0-a1", "1.0.0+b", "1.0.0-a+b", "01.0.0", "1.0.0-01", "1.0.0 ", "V1.0.0", "vv1.0.0",
-			"18446744073709551615.0.0", "18446744073709551616.0.0", "0.18446744073709551615.0", "v0.0.18446744073709551616")
+			"18446744073709551615.0.0", "18446744073709551616.0.0", "0.18446744073709551615.0", "v0.0.18446744073709551616",
+			"30000000000000000000.0.0", "0.50000000000000000000.0", "0.0.27670116110564327424", "v99999999999999999999.1.1", "1.184467440737095516150.1", "1.1.36893488147419103232", "20000000000000000000.0.0-rc.1", "0.0.18446744073709551620")
+		for d := 0; d < 12; d++ { // 20- and 21-digit numbers with every leading digit
+			pool = append(pool, fmt.Sprintf("%d%s.0.0", 1+d%9, strings.Repeat("0", 19+d/9)), fmt.Sprintf("0.0.%d%s", 2+d%8, r.StringFrom("0123456789", 19)))
+		}
+		_ = 0
 		for i := w.Shard; i < len(pool); i += w.NShards {
 			for j := range pool {
 				c14Helpers(w, pool[i], pool[j])
